@@ -337,7 +337,7 @@ ENT_POOL = ["User", "Group", "Org", "Photo", "Album", "Team", "Doc", "T1"]
 ODD_ENT_POOL = ["Long", "String", "Bool", "ipaddr", "decimal", "Set", "type", "entity", "namespace", "tags", "context",
                 "appliesTo", "principal", "resource", "action", "attributes", "enum", "Record", "Extension", "Entity"]
 COMMON_POOL = ["Addr", "Info", "Ctx", "Alias", "Pair"]
-ODD_COMMON_POOL = ["ipaddr", "decimal", "datetime", "duration", "type", "Action2", "entity", "tags"]
+ODD_COMMON_POOL = ["ipaddr", "decimal", "datetime", "duration", "type", "Action", "entity", "tags"]
 ENUM_IDS = [["red", "green"], ["a", "b c", "\U0001F600"], ["only"], ["", "x"], ['q"uote', "back\\slash", "nl\n"]]
 ATTR_POOL = ["n", "s", "b", "e", "set", "rec", "d", "opt", "a b", "é", "x1", "if", "in", "type", "entity", "Set",
              "context", "principal", "", 'q"', "tab\t", "__cedar", "true", "has"]
